@@ -28,7 +28,7 @@ MANIFEST = {
                  "regenerated constants/guards and a differential rig on real nodes",
     "design_ref": "5/C16",
 }
-MODULES = ["PrimaiteModel.Props.C16"]
+MODULES = ["PrimaiteModel.Props.C16", "PrimaiteModel.Props.C16Conn"]
 EXE = "drv_c16"
 
 
